@@ -1,6 +1,6 @@
 #!/bin/bash
 # usage: tools/seed_matrix.sh [ID ...]  — runs the quick check of each property against every seeded change under
-# /verif/seeded/<ID>/<V>/patch.diff (ONLY=<V> restricts to one change) in a scratch worktree and records the outcome in seeded/<ID>/<V>/detect.json
+# /verif/seeded/<ID>/<V>/patch.diff (ONLY=<V> restricts to one change, TIER=thorough runs the thorough check) in a scratch worktree and records the outcome in seeded/<ID>/<V>/detect.json
 cd /verif
 IDS="$@"
 [ -z "$IDS" ] && IDS=$(ls seeded)
@@ -16,7 +16,7 @@ for ID in $IDS; do
       echo "$ID $V: patch does not apply to HEAD"; git -C /repo worktree remove --force $WT; continue
     fi
     T0=$(date +%s)
-    VX_REPO=$WT timeout 3600 bin/vchk run $ID --no-evidence --workers ${WORKERS:-8} > /tmp/sm.$$.log 2>&1
+    VX_REPO=$WT timeout 3600 bin/vchk run $ID --tier ${TIER:-quick} --no-evidence --workers ${WORKERS:-8} > /tmp/sm.$$.log 2>&1
     RC=$?
     T1=$(date +%s)
     git -C /repo worktree remove --force $WT
@@ -29,7 +29,8 @@ for m in re.finditer(r'entry=(\S+) label="([^"]*)"', txt):
     e = (m.group(1), m.group(2)[:160])
     if e not in labels: labels.append(e)
 entries = re.findall(r'^entry (\S+)\s+(\S+)', txt, re.M)
-out = {"property": pid, "change": v, "quick_exit": int(rc), "detected": int(rc) == 1, "seconds": int(secs),
+import os
+out = {"property": pid, "change": v, "tier": os.environ.get("TIER", "quick"), "quick_exit": int(rc), "detected": int(rc) == 1, "seconds": int(secs),
        "violating_entries": sorted({e for e, s in entries if s == "violation"}),
        "first_labels": [{"entry": e, "label": l} for e, l in labels[:4]],
        "native_replay": [l.strip() for l in txt.splitlines() if "native replay:" in l][:2]}
